@@ -248,7 +248,7 @@ theorem C16_extract_pub (P : Prims) (sk p0 s0 : Bytes) (steps : List (Bytes × B
   · intro ps hps
     exact extractPub_lock P sk ps.1 ps.2 hsk (pwSalts_salt_length p0 s0 hs0 steps p0 hc ps hps)
 
-/-- on the toy primitives (public key = private key) and on the concrete ones -/
+/-- on the concrete primitives (X25519 is not evaluated), for the example history -/
 example : ∃ final,
     History.changePasses (Keyring.lockPrivateKey (List.replicate 32 7) [112, 119] (List.replicate 32 9)) exSteps = some final ∧
     History.extractPub concretePrims final [112, 119] =
